@@ -88,3 +88,16 @@ pub unsafe fn no_alloc(_layout: std::alloc::Layout) -> *mut u8 {
 pub unsafe fn no_realloc(_ptr: *mut u8, _layout: std::alloc::Layout, _new_size: usize) -> *mut u8 {
     panic!("STUB: heap allocation")
 }
+
+/// `<[T]>::copy_from_slice` as an element loop.  The std version is a
+/// `ptr::copy_nonoverlapping` of symbolic length, which CBMC models as an
+/// array-replace over the whole heap object; the loop has the same effect
+/// (same length check, same elements) and a far smaller encoding.
+pub fn copy_from_slice_loop<T: Copy>(dst: &mut [T], src: &[T]) {
+    assert!(dst.len() == src.len(), "source slice length does not match destination slice length");
+    let mut i = 0;
+    while i < src.len() {
+        dst[i] = src[i];
+        i += 1;
+    }
+}
